@@ -149,57 +149,70 @@ func runC08(c *Ctx) {
 		}
 	}
 	// ---------- account ----------
-	for _, withKeys := range []bool{false, true} {
-		for _, roundTrip := range []bool{false, true} {
-			ac := jwt.NewAccountClaims(A)
-			if withKeys {
-				ac.SigningKeys.Add(K1)
-				us := jwt.NewUserScope()
-				us.Key = K2
-				us.Role = "r"
-				ac.SigningKeys.AddScopedSigner(us)
-			}
-			if roundTrip {
-				tok, err := ac.Encode(akp)
-				if err != nil {
-					panic(err)
+	for _, dress := range []string{"plain", "external authorization enabled", "revocations, exports and limits"} {
+		for _, withKeys := range []bool{false, true} {
+			for _, roundTrip := range []bool{false, true} {
+				ac := jwt.NewAccountClaims(A)
+				if withKeys {
+					ac.SigningKeys.Add(K1)
+					us := jwt.NewUserScope()
+					us.Key = K2
+					us.Role = "r"
+					ac.SigningKeys.AddScopedSigner(us)
 				}
-				ac, err = jwt.DecodeAccountClaims(tok)
-				if err != nil {
-					panic(err)
+				// nothing else the account holds changes the answer
+				switch dress {
+				case "external authorization enabled":
+					ac.Authorization.AuthUsers.Add(U)
+					ac.Authorization.AllowedAccounts.Add(B)
+				case "revocations, exports and limits":
+					ac.Revocations = jwt.RevocationList{K1: 1700000000, K2: 1700000000, jwt.All: 1}
+					ac.Exports.Add(&jwt.Export{Subject: "x.>", Type: jwt.Stream, TokenReq: true, Revocations: jwt.RevocationList{B: 1700000000}})
+					ac.Limits.Conn, ac.Limits.Exports = 5, 3
+					ac.Tags.Add("t")
 				}
-			}
-			keys := ac.SigningKeys.Keys()
-			c.sum.Evaluations++
-			c.sum.ImplChecks++
-			if ac.DidSign(nil) {
-				c.violation("account DidSign(nil) answered yes", map[string]interface{}{})
-			}
-			wa.add(fmt.Sprintf("(%s, %s, None, %s)", coqStr(A), coqStrList(keys), coqBool(ac.DidSign(nil))), map[string]interface{}{"claim": nil})
-			for _, iss := range []string{A, K1, K2, AX, B, O} {
-				for _, kind := range kindNames {
-					for _, ia := range []string{"", A, B} {
-						for _, sub := range []string{A, U} {
-							cl := mkClaim(kind, iss, sub, ia)
-							got := ac.DidSign(cl)
-							hasIA := kind == "user" || kind == "activation"
-							want := iss == A || (hasIA && ia == A && contains(keys, iss))
-							inp := map[string]interface{}{"entity": "account", "keys_nonempty": withKeys, "round_trip": roundTrip, "kind": kind,
-								"issuer": nameOf(iss, A, K1, K2, AX, B), "issuer_account": nameOf(ia, A, B), "impl": got, "spec": want}
-							c.sum.Evaluations++
-							c.sum.ImplChecks++
-							if got != want {
-								c.violation("account DidSign differs from the trust rule", inp)
-							}
-							wa.add(fmt.Sprintf("(%s, %s, %s, %s)", coqStr(A), coqStrList(keys), claimCoq(kind, iss, sub, ia), coqBool(got)), inp)
-							distinct[fmt.Sprint("a", withKeys, iss == A, iss == K1, iss == K2, kind, ia == A, ia == "", got)] = true
-							if got {
-								c.count("account_yes")
-							} else {
-								c.count("account_no")
-							}
-							if c.sum.Evaluations%997 == 3 {
-								c.sample(inp)
+				if roundTrip {
+					tok, err := ac.Encode(akp)
+					if err != nil {
+						panic(err)
+					}
+					ac, err = jwt.DecodeAccountClaims(tok)
+					if err != nil {
+						panic(err)
+					}
+				}
+				keys := ac.SigningKeys.Keys()
+				c.sum.Evaluations++
+				c.sum.ImplChecks++
+				if ac.DidSign(nil) {
+					c.violation("account DidSign(nil) answered yes", map[string]interface{}{})
+				}
+				wa.add(fmt.Sprintf("(%s, %s, None, %s)", coqStr(A), coqStrList(keys), coqBool(ac.DidSign(nil))), map[string]interface{}{"claim": nil})
+				for _, iss := range []string{A, K1, K2, AX, B, O} {
+					for _, kind := range kindNames {
+						for _, ia := range []string{"", A, B} {
+							for _, sub := range []string{A, U} {
+								cl := mkClaim(kind, iss, sub, ia)
+								got := ac.DidSign(cl)
+								hasIA := kind == "user" || kind == "activation"
+								want := iss == A || (hasIA && ia == A && contains(keys, iss))
+								inp := map[string]interface{}{"entity": "account", "account_also_holds": dress, "keys_nonempty": withKeys, "round_trip": roundTrip, "kind": kind,
+									"issuer": nameOf(iss, A, K1, K2, AX, B), "issuer_account": nameOf(ia, A, B), "impl": got, "spec": want}
+								c.sum.Evaluations++
+								c.sum.ImplChecks++
+								if got != want {
+									c.violation("account DidSign differs from the trust rule", inp)
+								}
+								wa.add(fmt.Sprintf("(%s, %s, %s, %s)", coqStr(A), coqStrList(keys), claimCoq(kind, iss, sub, ia), coqBool(got)), inp)
+								distinct[fmt.Sprint("a", withKeys, iss == A, iss == K1, iss == K2, kind, ia == A, ia == "", got)] = true
+								if got {
+									c.count("account_yes")
+								} else {
+									c.count("account_no")
+								}
+								if c.sum.Evaluations%997 == 3 {
+									c.sample(inp)
+								}
 							}
 						}
 					}
